@@ -418,10 +418,26 @@ def fp_cover(key, all_names):
                 r'impl < P : GroupParams > Neg for G < P >': ['neg'], r'impl < P : GroupParams > PartialEq for G < P >': ['eq'],
                 r'impl < P : GroupParams > Mul < Fr > for G < P >': ['mul'], r'impl < P : GroupParams > Zero for G < P >': ['zero', 'is_zero'],
                 r'impl < P : GroupParams > GroupElement for G < P >': ['double'], r'impl < P : GroupParams > G < P >': ['to_affine']}
+        # plumbing: constructor / accessors / Clone / `one` / `random`, the reference and assign forms of `+`
+        plumbing = {r'impl < P : GroupParams > G < P >': ['new', 'x', 'y', 'z', 'x_mut', 'y_mut', 'z_mut'], r'impl < P : GroupParams > Clone for G < P >': ['clone'],
+                    r'impl < P : GroupParams > GroupElement for G < P >': ['one', 'random']}
+        addforms = {r'impl < P : GroupParams > Add < & G < P >> for G < P >': 'AddValRef', r'impl < P : GroupParams > Add < G < P >> for & G < P >': 'AddRefVal',
+                    r'impl < P : GroupParams > AddAssign < G < P >> for G < P >': 'AddAssignVal', r'impl < P : GroupParams > AddAssign < & G < P >> for G < P >': 'AddAssignRef'}
+        affine = {r'impl < P : GroupParams > AffineG < P >': ['new', 'to_jacobian', 'x', 'y', 'x_mut', 'y_mut'], r'impl < P : GroupParams > Clone for AffineG < P >': ['clone'],
+                  r'impl < P : GroupParams > Neg for AffineG < P >': ['neg'], r'impl < P : GroupParams > PartialEq for AffineG < P >': ['eq']}
         if ctx in pats and fn in pats[ctx]:
             names = [f'G1_{fn}', f'G2_{fn}']
-        elif ctx == 'impl < P : GroupParams > AffineG < P >' and fn in ('new', 'to_jacobian'):
+        elif ctx in plumbing and fn in plumbing[ctx]:
+            names = [f'G1_{fn}', f'G2_{fn}']
+        elif ctx in addforms and fn in ('add', 'add_assign'):
+            names = [f'G1{addforms[ctx]}_{fn}', f'G2{addforms[ctx]}_{fn}']
+        elif ctx in affine and fn in affine[ctx]:
             names = [f'AffineG1_{fn}', f'AffineG2_{fn}']
+        elif re.fullmatch(r'impl GroupParams for G[12]Params', ctx) and fn in ('name', 'one', 'coeff_b', 'check_order'):
+            P = ctx.split()[-1]
+            names = [f'{P}_{fn}'] + ([f'{P}_coeff_b_value'] if fn == 'coeff_b' else []) + ([f'{P}_one_unwrap_ok'] if fn == 'one' else [])
+        elif ctx.startswith('trait GroupParams') and fn == 'check_order':
+            names = ['G1Params_check_order']      # the default body, inherited by `G1Params`
     elif rel == 'pairings.rs':
         if ctx == 'impl Fq12' and fn in ('final_exponentiation_first_chunk', 'final_exponentiation_last_chunk', 'final_exp_last_chunk'):
             names = [f'Fq12_{fn}']
@@ -435,6 +451,17 @@ def fp_cover(key, all_names):
             names = ['G2Prepared_from']
         elif ctx == '' and fn in ('pairing', 'fast_pairing', 'bit'):
             names = [f'Pairings_{fn}']
+    elif rel == 'fields/utils.rs':
+        # operator-plumbing macros: one polymorphic definition per operator form (`Ops.<fn>_<self form>_<rhs form>`)
+        m = re.fullmatch(r'macro_rules! \w+ / impl\s+(\w+)(?: < (& \'b )?\$ rhs >)? for (& \'a )?\$ (?:lhs|output)', ctx)
+        if m:
+            sf, rf = ('ref' if m.group(3) else 'val'), ('ref' if m.group(2) else 'val')
+            if fn.endswith('_assign'):
+                names = [f'Ops_{fn}_{rf}']
+            elif fn == 'neg':
+                names = [f'Ops_neg_{sf}']
+            else:
+                names = [f'Ops_{fn}_{sf}_{rf}']
     elif rel in ('arith.rs', 'u256.rs', 'u512.rs', 'fields/fp.rs', 'fields.rs'):
         # limb level: every theorem of Gen/LimbEquiv.lean about this function (equivalence, loop lemmas, in-range obligations)
         T = None
